@@ -17,7 +17,7 @@ def one(d):
     finally:
         shutil.rmtree(w, ignore_errors=True)
 
-dirs = sorted(glob.glob("/verif/seeded/refactorings/C*-r*"))
+dirs = sorted(glob.glob("/verif/seeded/refactorings/C*-*"))
 dirs = [d for d in dirs if os.path.exists(d + "/patch.diff")]
 if len(sys.argv) > 1:
     dirs = [d for d in dirs if any(a in d for a in sys.argv[1:])]
